@@ -20,6 +20,7 @@ pub fn def() -> PropDef {
         panic_is_violation: false,
         rule: "run = seeded multi-replica history (2-6 replicas, gossip with loss/dup/reorder, merges, forks, clean restarts) followed by a quiesce phase in which every replica is brought to the full change set by a different ingestion path; non-trivial = history has >=2 concurrent changes touching the same object and >=2 distinct ingestion paths were used; distinct by digest of (DAG shape, path assignment)",
         custom: None,
+        abort_prone: false,
         probes: &["probe.equal_sets_compared", "probe.path.one_by_one_shuffled", "probe.path.batch_dups", "probe.path.merge", "probe.path.load_save", "probe.path.load_incremental_chunks", "probe.path.bundle", "probe.path.sync", "probe.concurrent_same_object"],
         fault_kinds: &["fault.loss", "fault.dup", "fault.reorder", "fault.crash.clean"],
     }
